@@ -285,6 +285,27 @@ impl Scen {
                     rep.fail(format!("C06 bank {} last_update {} != clock {} after successful {:?}: interest not brought up to date; hist {:?}", bi, post.last_update, now, act, self.hist));
                 }
             }
+            // the share values after any successful instruction on the bank must be exactly those that a
+            // plain accrual of the PRE-state bank up to `now` produces (user operations never move share
+            // values; bankruptcy, which does, is not part of this action set)
+            if Some(bi) == touched && !matches!(act, Act::CollectFees { .. }) && !early_noop {
+                use marginfi::state::bank::BankImpl;
+                let mut expect = *pre;
+                let g = self.w.group(&self.group);
+                crate::world::install_stubs();
+                if expect.accrue_interest(now, &g, h.bank).is_ok() {
+                    let zero_upto = matches!(act, Act::Deposit { upto: true, .. }) && fx(post.total_asset_shares) == fx(pre.total_asset_shares);
+                    if !zero_upto && (fx(expect.asset_share_value) != fx(post.asset_share_value) || fx(expect.liability_share_value) != fx(post.liability_share_value)) {
+                        rep.fail(format!(
+                            "C06 bank {} share values after {:?} are ({}, {}) but accruing the pre-state to the current time gives ({}, {}): stale or skipped accrual; hist {:?}",
+                            bi, act, fx(post.asset_share_value), fx(post.liability_share_value), fx(expect.asset_share_value), fx(expect.liability_share_value), self.hist
+                        ));
+                    }
+                    if !zero_upto && fx(post.collected_insurance_fees_outstanding) < fx(expect.collected_insurance_fees_outstanding) {
+                        rep.fail(format!("C06 bank {} insurance fees after {:?} below the accrued amount; hist {:?}", bi, act, self.hist));
+                    }
+                }
+            }
             if fx(post.asset_share_value) < fx(pre.asset_share_value) || fx(post.liability_share_value) < fx(pre.liability_share_value) {
                 rep.fail(format!("C06 share value decreased on bank {} by {:?}; hist {:?}", bi, act, self.hist));
             }
